@@ -988,3 +988,122 @@ Proof.
   - apply (Hid Obs). exists t. split; assumption.
   - apply (Hid Samp). exists t. split; assumption.
 Qed.
+
+(* ================================================================ metadata, list form included *)
+Lemma md_truthy_norm o : md_truthy o = match md_norm o with Some _ => true | None => false end.
+Proof. destruct o as [m|]; simpl; [destruct (md_falsy m)|]; reflexivity. Qed.
+
+(* the repaired default is what the property text says *)
+Lemma prefer_self_text_eq x y : prefer_self x y = prefer_self_text x y.
+Proof. unfold prefer_self, prefer_self_text. rewrite md_truthy_norm. destruct (md_norm x); reflexivity. Qed.
+
+Lemma prefer_self_respects : respects_norm prefer_self.
+Proof.
+  split; [|reflexivity]. intros x x' y y' Hx Hy. unfold prefer_self.
+  rewrite (md_truthy_norm x), (md_truthy_norm x'). rewrite <- Hx.
+  destruct (md_norm x) eqn:E; [|exact Hy]. rewrite E. exact Hx.
+Qed.
+
+Lemma md_of_absent ax t i : ~ In i (ids ax t) -> md_of ax t i = None.
+Proof. intros H. apply pos_None in H. unfold md_of. rewrite H. reflexivity. Qed.
+
+Lemma md_fold_snoc f ax self others t i :
+  md_fold f ax self (others ++ [t]) i = f (md_fold f ax self others i) (md_of ax t i).
+Proof. unfold md_fold. rewrite fold_left_app. reflexivity. Qed.
+
+Lemma md_fold_none f ax others i :
+  respects_norm f -> forall acc, md_norm acc = None -> (forall t, In t others -> md_of ax t i = None) ->
+  md_norm (fold_left (fun acc t => f acc (md_of ax t i)) others acc) = None.
+Proof.
+  intros [R N]. induction others as [|t others IH]; intros acc Ha Ht; simpl; [exact Ha|].
+  apply IH; [|intros u Hu; apply Ht; right; exact Hu].
+  rewrite (Ht t (or_introl eq_refl)). transitivity (md_norm (f None None)); [apply R; [exact Ha|reflexivity]|exact N].
+Qed.
+
+Definition InvMd (f_s f_o : mdf) (self : table) (done : list table) (m : table) : Prop :=
+  forall ax i, In i (ids ax m) ->
+    md_norm (md_of ax m i) = md_norm (md_fold (axis_f ax f_s f_o) ax self done i).
+
+Lemma inv_md_step sm om f_s f_o self done m other r :
+  respects_norm f_s -> respects_norm f_o ->
+  Inv sm om (self :: done) m -> InvMd f_s f_o self done m -> wf other ->
+  merge_pair sm om (Some f_s) (Some f_o) m other = ROk r ->
+  InvMd f_s f_o self (done ++ [other]) r.
+Proof.
+  intros Rs Ro (Wm & Is & Io & Ic) HM Wo H ax i Hi.
+  rewrite md_fold_snoc.
+  assert (Rf : respects_norm (axis_f ax f_s f_o)) by (destruct ax; assumption).
+  destruct (merge_pair_spec _ _ _ _ _ _ _ Wm Wo H) as (_ & Ps & Po & _).
+  assert (Pax : In i (ids ax r) <-> pair_ids (axis_f ax sm om) (ids ax m) (ids ax other) i)
+    by (destruct ax; [apply Po|apply Ps]).
+  assert (Iax : In i (ids ax m) <-> id_set (axis_f ax sm om) ax (self :: done) i)
+    by (destruct ax; [apply Io|apply Is]).
+  assert (Key : md_norm (md_of ax m i) = md_norm (md_fold (axis_f ax f_s f_o) ax self done i)).
+  { destruct (in_dec Z.eq_dec i (ids ax m)) as [Him|Him]; [apply HM; exact Him|].
+    rewrite (md_of_absent ax m i Him). symmetry.
+    assert (Abs : forall t, In t (self :: done) -> ~ In i (ids ax t)).
+    { apply Pax in Hi. destruct (axis_f ax sm om); simpl in Hi, Iax.
+      - intros t Ht Hin. apply Him, Iax. exists t. split; assumption.
+      - destruct Hi as [A _]. contradiction.
+      - destruct Hi. }
+    unfold md_fold. apply md_fold_none; [exact Rf| |].
+    - rewrite (md_of_absent ax self i); [reflexivity|]. apply Abs. left. reflexivity.
+    - intros t Ht. apply md_of_absent. apply Abs. right. exact Ht. }
+  unfold merge_pair in H. destruct (fast_ok [m; other] sm om (Some f_s) (Some f_o)) eqn:F.
+  - inversion H; subst r; clear H.
+    destruct (fast_ok_inv _ _ _ _ _ F) as (_ & _ & [A|[A _]]); [|discriminate].
+    simpl in A. apply andb_true_iff in A. destruct A as [Nm A]. apply andb_true_iff in A. destruct A as [No _].
+    apply no_md_spec in Nm. apply no_md_spec in No.
+    rewrite (md_of_no_md ax (fast_merge [m; other]) i) by (destruct ax; reflexivity).
+    rewrite (md_of_no_md ax other i) by (destruct ax; tauto).
+    rewrite (md_of_no_md ax m i) in Key by (destruct ax; tauto).
+    symmetry. transitivity (md_norm (axis_f ax f_s f_o None None)); [apply (proj1 Rf); [symmetry; exact Key|reflexivity]|exact (proj2 Rf)].
+  - destruct (merge_general_spec_proof _ _ _ _ _ _ _ Wm Wo H) as (_ & _ & _ & (g_s & g_o & E1 & E2 & Gm) & _).
+    inversion E1; subst g_s. inversion E2; subst g_o.
+    rewrite (Gm ax i Hi). apply (proj1 Rf); [exact Key|reflexivity].
+Qed.
+
+Lemma inv_md_fold sm om f_s f_o self others :
+  respects_norm f_s -> respects_norm f_o -> forall done m r,
+  Inv sm om (self :: done) m -> InvMd f_s f_o self done m -> Forall wf others ->
+  fold_left (pair_step sm om (Some f_s) (Some f_o)) others (ROk m) = ROk r ->
+  InvMd f_s f_o self (done ++ others) r.
+Proof.
+  intros Rs Ro. induction others as [|o others IH]; intros done m r HI HM W H.
+  - inversion H; subst. rewrite app_nil_r. exact HM.
+  - inversion W as [|? ? Wo Wr]; subst. cbn [fold_left pair_step] in H.
+    destruct (merge_pair sm om (Some f_s) (Some f_o) m o) as [m'|c] eqn:E.
+    + replace (done ++ o :: others) with ((done ++ [o]) ++ others) by (rewrite <- app_assoc; reflexivity).
+      apply (IH (done ++ [o]) m' r).
+      * change (self :: done ++ [o]) with ((self :: done) ++ [o]). eapply inv_step; eassumption.
+      * eapply inv_md_step; eassumption.
+      * exact Wr.
+      * exact H.
+    + rewrite fold_err in H. discriminate.
+Qed.
+
+(* whatever path is taken, the metadata of an id is the function applied from left to right to the
+   operands' metadata for that id (up to None = empty dict) *)
+Theorem merge_dispatch_md_proof self others sm om f_s f_o r :
+  wf self -> Forall wf others -> sm <> BadMode -> om <> BadMode ->
+  respects_norm f_s -> respects_norm f_o ->
+  merge_dispatch self others sm om (Some f_s) (Some f_o) = ROk r ->
+  forall ax i, In i (ids ax r) ->
+    md_norm (md_of ax r i) = md_norm (md_fold (axis_f ax f_s f_o) ax self others i).
+Proof.
+  intros Ws Wo Hsm Hom Rs Ro H.
+  destruct (fast_ok (self :: others) sm om (Some f_s) (Some f_o)) eqn:F.
+  - unfold merge_dispatch in H. rewrite F in H. inversion H; subst r; clear H.
+    destruct (fast_ok_inv _ _ _ _ _ F) as (_ & _ & [A|[A _]]); [|discriminate].
+    rewrite forallb_forall in A. intros ax i _.
+    rewrite (md_of_no_md ax (fast_merge (self :: others)) i) by (destruct ax; reflexivity).
+    symmetry. unfold md_fold. apply md_fold_none; [destruct ax; assumption| |].
+    + rewrite md_of_no_md; [reflexivity|].
+      assert (N : no_md self = true) by (apply A; left; reflexivity). apply no_md_spec in N. destruct ax; tauto.
+    + intros t Ht. apply md_of_no_md.
+      assert (N : no_md t = true) by (apply A; right; exact Ht). apply no_md_spec in N. destruct ax; tauto.
+  - rewrite (dispatch_unfold _ _ _ _ _ _ F) in H.
+    apply (inv_md_fold sm om f_s f_o self others Rs Ro [] self r); try assumption.
+    + apply inv_init; assumption.
+    + intros ax i _. reflexivity.
+Qed.
